@@ -153,6 +153,21 @@ func (g *cgen) iterExpr() string {
 	}
 }
 
+// bodyDecl sometimes puts a top-level declaration into the loop body (:=, var, or a
+// redeclaration of the loop variable itself), which decides how the lowering scopes the body.
+func (g *cgen) bodyDecl(v string) {
+	switch g.rng.Intn(6) {
+	case 0:
+		g.line("d%d := %s * 2", g.nid(), v)
+		g.line("tr.V(%d, d%d)", g.nid(), g.id-1)
+		g.feats["body-declares"] = true
+	case 1:
+		g.line("var q%d = %s + 1", g.nid(), v)
+		g.line("tr.V(%d, q%d)", g.nid(), g.id-1)
+		g.feats["body-declares"] = true
+	}
+}
+
 func (g *cgen) exitStmt(inFuncWithResult bool) {
 	switch g.rng.Intn(4) {
 	case 0:
@@ -182,6 +197,7 @@ func (g *cgen) step(it string, depth int) {
 		g.line("for %s := range OVER<<%s>>OVER {", v, it)
 		g.ind++
 		g.line("tr.V(%d, %s)", g.nid(), v)
+		g.bodyDecl(v)
 		g.exitStmt(false)
 		if depth < 1 && g.rng.Intn(4) == 0 {
 			inner := g.iterExpr()
@@ -207,6 +223,7 @@ func (g *cgen) step(it string, depth int) {
 		g.line("for %s = range OVER<<%s>>OVER {", v, it)
 		g.ind++
 		g.line("tr.V(%d, %s)", g.nid(), v)
+		g.bodyDecl(v)
 		g.exitStmt(false)
 		g.ind--
 		g.line("}")
